@@ -67,10 +67,7 @@ func (p *parser) hexBytes() []byte {
 		p.fail("hex")
 	}
 	p.i = j
-	if b == nil {
-		b = []byte{}
-	}
-	return b
+	return guarded(b)
 }
 
 func (p *parser) optBytes() []byte {
